@@ -6,30 +6,15 @@
 #include "ledger.h"
 /* scale exponents come from frexp() of doubles: |e| is bounded (assumed type invariant) */
 #define DATAARRAY_READ_INVARIANT(v) __CPROVER_assume(-EXP_MAX <= (v) && (v) <= EXP_MAX)
-#include "containers.h"
+#include "lp_parts.h"
 
 struct SPxOut { static void debug(const void*, const char*, ...) {} };
 
-/* `return *(VectorBase<T>*)&m;`: the front end drops the const of a `const X<T>&` return type and then
- * rejects `return m;` in a const member; the cast is semantically neutral. */
-template <class T> struct LPColSetBase
-{
-   DataArray<int> scaleExp;
-   VectorBase<T> low, up, object;
-   const VectorBase<T>& lower() const { return *(VectorBase<T>*)&low; }
-   const VectorBase<T>& upper() const { return *(VectorBase<T>*)&up; }
-   const VectorBase<T>& maxObj() const { return *(VectorBase<T>*)&object; }
-};
-template <class T> struct LPRowSetBase
-{
-   DataArray<int> scaleExp;
-   VectorBase<T> left, right, object;
-   const VectorBase<T>& lhs() const { return *(VectorBase<T>*)&left; }
-   const VectorBase<T>& rhs() const { return *(VectorBase<T>*)&right; }
-};
 template <class T> struct SPxLPBase : LPRowSetBase<T>, LPColSetBase<T>
 {
    bool _isScaled;
+   LPShared<T> sh;
+   void bind() { LPRowSetBase<T>::d = &sh; LPColSetBase<T>::d = &sh; }
    bool isScaled() const { return _isScaled; }
 };
 
@@ -57,8 +42,9 @@ extern "C" void w_vec(R* in, R* io, int* rowexp, int* colexp, int n)
    lp._isScaled = true;
    lp.LPColSetBase<R>::scaleExp.data = colexp; lp.LPColSetBase<R>::scaleExp.thesize = n;
    lp.LPRowSetBase<R>::scaleExp.data = rowexp; lp.LPRowSetBase<R>::scaleExp.thesize = n;
-   lp.low.val = in; lp.low.dimen = n; lp.up.val = in; lp.up.dimen = n; lp.LPColSetBase<R>::object.val = in; lp.LPColSetBase<R>::object.dimen = n;
-   lp.left.val = in; lp.left.dimen = n; lp.right.val = in; lp.right.dimen = n; lp.LPRowSetBase<R>::object.val = in; lp.LPRowSetBase<R>::object.dimen = n;
+   lp.bind();
+   lp.sh.low.val = in; lp.sh.low.dimen = n; lp.sh.up.val = in; lp.sh.up.dimen = n; lp.sh.obj.val = in; lp.sh.obj.dimen = n;
+   lp.sh.left.val = in; lp.sh.left.dimen = n; lp.sh.right.val = in; lp.sh.right.dimen = n; lp.sh.robj.val = in; lp.sh.robj.dimen = n;
    VectorBase<R> v; v.val = io; v.dimen = n;
    gp_out = io;
    H h; h.lp_ = &lp; h.v_ = &v;
